@@ -354,6 +354,7 @@ def run_bulk_boundary(res, tier, seed, only=None):
                 w1.send(M.DataMessage(M.DATA_BLOCK, b.to_sk_block(x)), in_response_to=9)
                 w1.deliver()
             res.evaluations += k
+            rows_before = set(bytes(r[0]) for r in store.sql("select block_hash from chain").fetchall())
             bad = world.build_block({"label": "bad%d" % k, "parent": "c%d" % k, "miner": 2, "dt": 120, "txs": [], "reward": {"delta": 1}})
             if bad is None:
                 raise env.HarnessError("cannot build the rule-breaking block")
@@ -382,6 +383,7 @@ def run_bulk_boundary(res, tier, seed, only=None):
                 w1.deliver()
                 net.drain(None, only=[node])
             # restart
+            held = set(node.cm.coinstate.block_by_hash)
             store.close()
             with env.quiet():
                 store2 = BS.BlockStore(path)
@@ -391,6 +393,13 @@ def run_bulk_boundary(res, tier, seed, only=None):
             store2.close()
             if bad.id() in disk or bad.id() in cs.block_by_hash:
                 res.fail("store", "rejected-block-in-store", "%s was refused, but after a restart it is in the block store / the rebuilt chain state" % what, case)
+            # whatever reached the store after the refusal must be something the node still holds: the refusal rolled chain state
+            # back, so answers that were only buffered at that moment were dropped with it and must not be written later
+            dropped = [h for h in disk if h not in held and h not in rows_before]
+            if dropped:
+                res.fail("store", "store-holds-blocks-the-node-dropped", "%s was refused and chain state rolled back to %d block(s); after the next flush and a restart the store holds %d block(s) "
+                         "that were written after the refusal and are not in the node's chain state (rebuilt head height %d, running node %d)" % (
+                             what, len(held), len(dropped), cs.head().height if cs.heads else -1, node.cm.coinstate.head().height if node.cm.coinstate.heads else -1), case)
             if nxt is not None and nxt.id() not in disk:
                 res.fail("store", "accepted-block-not-in-store", "%s was refused; a valid block relayed afterwards is not in the store after a restart" % what, case)
         if only is None or only == "short_height":
